@@ -638,6 +638,13 @@ func VJSON(v interface{}) []byte                            { return vJSON(v) }
 func VAlgFitsKey(alg string, key interface{}) bool {
 	var bits int
 	switch k := key.(type) {
+	case ed25519.PublicKey: // EdDSA only, and only with a key of the right length
+		return alg == "EdDSA" && len(k) == 32
+	case jwk.OKPPublicKey:
+		if k.Crv().String() == "Ed25519" {
+			return alg == "EdDSA" && len(k.X()) == 32
+		}
+		return true
 	case *ecdsa.PublicKey:
 		bits = k.Curve.Params().BitSize
 	case *ecdsa.PrivateKey:
